@@ -494,11 +494,108 @@ theorem other_messages_frame (c : Conn) (ms : List Msg) :
         · exact absurd rfl (hne p)
         · exact i4 y hy hne
 
-/-! ### D18: the unrepaired assembly (`incomingLegacy`, the code before `fixes/D18_…diff`) -/
-
 def a1 : Part := ⟨7, 1, true, [10]⟩        -- request A (xid 7, FLOW): first part
 def b1 : Part := ⟨8, 4, false, [20]⟩       -- request B (xid 8, PORT): complete single-part reply
 def a2 : Part := ⟨7, 1, false, [11, 12]⟩   -- request A: final part
+
+/-! ## listeners: what the listeners of the events answer is an input of every handler -/
+
+theorem deliverL_state (c : Conn) (h : Halts) (m : Msg) : (deliverL c h m).1 = (deliver c m).1 := by
+  cases m <;> rfl
+
+theorem deliverL_nexus (c : Conn) (h : Halts) (m : Msg) :
+    (deliverL c h m).2.rawNexus = (deliver c m).2.raw ∧ (deliverL c h m).2.outNexus = (deliver c m).2.out := by
+  cases m <;> exact ⟨rfl, rfl⟩
+
+/-- **listeners_frame** — for every message sequence from any connection state and ANY answers of the nexus-level listeners
+(halting or not, differently for every message and every event kind): the connection's state afterwards — port view and open
+parts — is the one of the run without listeners; what is raised on the nexus (raw and aggregated events) is, message by
+message, what the run without listeners raises; and the connection-level events are the nexus-level ones minus exactly those
+a nexus-level listener halted (nothing else is lost, nothing is added).  Hence every theorem above about `runConn` / `runStats`
+/ `PortView.run` holds for the nexus-level events and for the state whatever listeners do. -/
+theorem listeners_frame (c : Conn) (xs : List (Halts × Msg)) :
+    (runConnL c xs).1 = (runConn c (xs.map Prod.snd)).1 ∧
+    (runConnL c xs).2.map (fun s => (s.rawNexus, s.outNexus)) =
+      (runConn c (xs.map Prod.snd)).2.map (fun s => (s.raw, s.out)) ∧
+    (∀ x ∈ xs.zip (runConnL c xs).2,
+        x.2.rawCon = (if x.1.1.raw then none else x.2.rawNexus) ∧
+        x.2.outCon = secondRaise x.1.1.agg x.2.outNexus ∧
+        x.2.portCon = (x.2.portNexus && !x.1.1.port)) := by
+  induction xs generalizing c with
+  | nil => simp [runConnL, runConn]
+  | cons x xs ih =>
+    obtain ⟨h, m⟩ := x
+    have hs := deliverL_state c h m
+    have hn := deliverL_nexus c h m
+    obtain ⟨i1, i2, i3⟩ := ih (deliverL c h m).1
+    refine ⟨?_, ?_, ?_⟩
+    · simp only [runConnL, List.map_cons, runConn]
+      rw [i1, hs]
+    · simp only [runConnL, List.map_cons, runConn]
+      rw [i2, hs, hn.1, hn.2]
+    · intro y hy
+      simp only [runConnL, List.zip_cons_cons, List.mem_cons] at hy
+      rcases hy with rfl | hy
+      · cases m <;> simp [deliverL, secondRaise]
+      · exact i3 y hy
+
+theorem runConn_stats (c : Conn) (ps : List Part) :
+    (runConn c (ps.map Msg.stats)).2.map (fun s => s.out) = (runStats c.pending ps).2 := by
+  induction ps generalizing c with
+  | nil => rfl
+  | cons p ps ih =>
+    simp only [List.map_cons, runConn, runStats, deliver]
+    rw [ih]
+
+/-- **stats_any_listeners** — the statistics clause with listeners as an input: for every stream of well-typed statistics
+parts and ANY answers of the listeners of the raw and of the aggregated events at every part (so in particular a listener
+that halts the `RawStatsReply` of some parts), the aggregated event raised at each part is the one the specification
+prescribes — nothing at a part with `REPLY_MORE`, at a final part all of that request's parts' entries in order.  (With the
+call of `_incoming_stats_reply` placed under the "not halted" guard this is false: see the witness below.) -/
+theorem stats_any_listeners (v : PortView.View) (hps : List (Halts × Part)) (hs : ∀ x ∈ hps, WellTyped x.2) :
+    (runConnL ⟨v, []⟩ (hps.map (fun x => (x.1, Msg.stats x.2)))).2.map (fun s => s.outNexus) =
+      (Spec17.events (hps.map (fun x => x.2))).map Out.ofOption := by
+  have hf := (listeners_frame ⟨v, []⟩ (hps.map (fun x => (x.1, Msg.stats x.2)))).2.1
+  have h1 : (runConnL ⟨v, []⟩ (hps.map (fun x => (x.1, Msg.stats x.2)))).2.map (fun s => s.outNexus) =
+      ((runConnL ⟨v, []⟩ (hps.map (fun x => (x.1, Msg.stats x.2)))).2.map (fun s => (s.rawNexus, s.outNexus))).map Prod.snd := by
+    simp [List.map_map, Function.comp_def]
+  rw [h1, hf]
+  have h2 : (hps.map (fun x => (x.1, Msg.stats x.2))).map Prod.snd = (hps.map (fun x => x.2)).map Msg.stats := by
+    simp [List.map_map, Function.comp_def]
+  rw [h2, List.map_map]
+  have h3 : (Prod.snd ∘ fun s : Step => (s.raw, s.out)) = fun s => s.out := by funext s; rfl
+  rw [h3, runConn_stats]
+  exact stats_refine _ (by
+    intro p hp
+    obtain ⟨x, hx, rfl⟩ := List.mem_map.mp hp
+    exact hs x hx)
+
+/-- a handler that feeds the assembler only when the raw event was not halted (the shape of every OTHER handler of the class) -/
+def deliverGuarded (c : Conn) (h : Halts) : Msg → Conn × Out
+  | .stats p => if h.raw then (c, .quiet) else let r := incoming c.pending p; ({ c with pending := r.1 }, r.2)
+  | .port m => ({ c with view := PortView.step c.view m }, .quiet)
+  | .other => (c, .quiet)
+
+/-- the raw event of the middle part halted: the guarded handler loses that part's entries; `deliverL` does not -/
+theorem guarded_assembly_defect :
+    let a : Part := ⟨7, 1, true, [10]⟩; let b : Part := ⟨7, 1, true, [11]⟩; let z : Part := ⟨7, 1, false, [12]⟩
+    let no : Halts := ⟨false, false, false⟩; let yes : Halts := ⟨true, false, false⟩
+    (deliverGuarded (deliverGuarded (deliverGuarded Conn.init no (.stats a)).1 yes (.stats b)).1 no (.stats z)).2
+      = .event ⟨1, [10, 12], [7, 7]⟩ ∧
+    (runConnL Conn.init [(no, .stats a), (yes, .stats b), (no, .stats z)]).2.map (fun s => s.outNexus)
+      = [.quiet, .quiet, .event ⟨1, [10, 11, 12], [7, 7, 7]⟩] ∧
+    (runConnL Conn.init [(no, .stats a), (yes, .stats b), (no, .stats z)]).2.map (fun s => s.rawCon) = [some a, none, some z] := by
+  decide
+
+/-! non-vacuity: halting answers at some messages, connection-level events hidden exactly there -/
+example : (runConnL Conn.init [(⟨false, true, true⟩, .stats a1), (⟨true, true, false⟩, .stats b1), (⟨false, false, true⟩, .port (.status 0 pA)),
+      (⟨true, false, false⟩, .stats a2)]).2.map (fun s => (s.outNexus, s.outCon, s.portNexus, s.portCon)) =
+    [(.quiet, .quiet, false, false), (.event ⟨4, [20], [8]⟩, .quiet, false, false), (.quiet, .quiet, true, false),
+     (.event ⟨1, [10, 11, 12], [7, 7]⟩, .event ⟨1, [10, 11, 12], [7, 7]⟩, false, false)] := by decide
+example : ∀ x ∈ [((⟨true, false, false⟩ : Halts), a1), (⟨true, true, false⟩, a2)], WellTyped x.2 := by decide
+
+/-! ### D18: the unrepaired assembly (`incomingLegacy`, the code before `fixes/D18_…diff`) -/
+
 
 /-- B's reply arriving between A's parts: the unrepaired code raises `AttributeError` and B's event is never raised -/
 theorem legacy_interleave_defect :
